@@ -107,6 +107,14 @@ def get_ranges(headervalue, content_length):
         return None
 
 
+def _position(text):
+    # rfc 7233 sec 2.1: first-byte-pos, last-byte-pos and suffix-length are
+    # 1*DIGIT (int() would also take a sign, blanks, '_' and other digits)
+    if not (text.isascii() and text.isdigit()):
+        raise ValueError(text)
+    return int(text)
+
+
 def _get_ranges(headervalue, content_length):
     result = []
     bytesunit, byteranges = headervalue.split('=', 1)
@@ -115,11 +123,10 @@ def _get_ranges(headervalue, content_length):
         # is ignored
         return None
     for brange in byteranges.split(','):
-        start, stop = (x.strip() for x in brange.split('-', 1))
+        start, stop = brange.strip().split('-', 1)
         if start:
-            if not stop:
-                stop = content_length - 1
-            start, stop = list(map(int, (start, stop)))
+            start = _position(start)
+            stop = _position(stop) if stop else content_length - 1
             # a last-byte-pos beyond the end means "up to the end"
             stop = min(stop, content_length - 1)
             if start >= content_length:
@@ -150,7 +157,7 @@ def _get_ranges(headervalue, content_length):
             # Negative subscript (last N bytes)
             # Prevent duplicate ranges. See Issue #59
             # (at most the whole entity)
-            suffix = int(stop)
+            suffix = _position(stop)
             if suffix < 0:
                 # "--5" is not a byte-range-spec: see rfc quote above.
                 return None
